@@ -1,6 +1,10 @@
 import PqModel.Search
 
-/-! # C06 — Page search by value never misses a page that contains the value -/
+/-! # C06 — Page search by value never misses a page that contains the value
+
+`binarySearch`, `linearSearch`, `find` are MIRRORS of search.go (after the F1 repair: `Find` falls back
+to the linear search when the index has a null page). Values are ranks in a linear order (`Int`);
+`none` = the null bound of a null page, compared nulls-last as `Search` does. -/
 namespace PqModel.Props.C06
 open PqModel.Search
 
@@ -9,5 +13,64 @@ theorem binarySearch_first_no_null_pages {ix mn mx} (h : Ascending ix mn mx) (v 
     (binarySearch ix v < ix.n → contains ix (binarySearch ix v) v = true) ∧
     (∀ i, i < ix.n → contains ix i v = true → binarySearch ix v ≤ i) :=
   binarySearch_first h v
+
+example : Ascending { mins := [some (-5), some 7], maxs := [some (-3), some 9] }
+    (fun i => if i = 0 then -5 else 7) (fun i => if i = 0 then -3 else 9) where
+  len := rfl
+  mins := by intro i hi; have : i = 0 ∨ i = 1 := by simp [Index.n] at hi; omega
+             rcases this with h | h <;> subst h <;> rfl
+  maxs := by intro i hi; have : i = 0 ∨ i = 1 := by simp [Index.n] at hi; omega
+             rcases this with h | h <;> subst h <;> rfl
+  smin := by intro i j hij hj; simp [Index.n] at hj; split <;> split <;> omega
+  smax := by intro i j hij hj; simp [Index.n] at hj; split <;> split <;> omega
+  le := by intro i hi; split <;> omega
+
+/-- `linearSearch` returns the first page whose bounds contain `v`, else `n` — for EVERY index: null
+    pages anywhere (they contain nothing), any order, overlapping or duplicate bounds, ragged lists. -/
+theorem linear_correct (ix : Index) (v : Int) :
+    linearSearch ix v ≤ ix.n ∧
+    (linearSearch ix v < ix.n → contains ix (linearSearch ix v) v = true) ∧
+    (∀ i, i < ix.n → contains ix i v = true → linearSearch ix v ≤ i) :=
+  linearSearch_first ix v
+
+example : linearSearch f1 8 = 2 := by decide
+
+/-- `find` (the repaired dispatch of `Find`) never misses, for every index and every flag, as long as the
+    flag is truthful in the only case the dispatch relies on it: flagged ascending AND no null page ⇒
+    the index is ascending. Result: `find ≤ p` for every page `p` whose bounds contain `v` (so it is
+    the first such page), the returned page contains `v`, else `find = n`. -/
+theorem find_no_miss (asc : Bool) (ix : Index) (v : Int)
+    (htruth : asc = true → hasNull ix = false → ∃ mn mx, Ascending ix mn mx) :
+    find asc ix v ≤ ix.n ∧
+    (find asc ix v < ix.n → contains ix (find asc ix v) v = true) ∧
+    (∀ p, p < ix.n → contains ix p v = true → find asc ix v ≤ p) := by
+  unfold find
+  by_cases hc : (asc && !hasNull ix) = true
+  · rw [if_pos hc]
+    simp only [Bool.and_eq_true, Bool.not_eq_true'] at hc
+    obtain ⟨mn, mx, ha⟩ := htruth hc.1 hc.2
+    exact binarySearch_first ha v
+  · rw [if_neg hc]
+    exact linearSearch_first ix v
+
+-- the premise holds trivially for the F1 index (it has a null page): the dispatch goes linear
+example : find true f1 8 = 2 := by decide
+
+/-- The flag is truthful for every index the WRITER builds: `asc` is "the indexer computed ASCENDING"
+    (`writerOrder z ix = 1`, null pages stored as the zero value `z`), bounds lists have equal length and
+    every non-null page has `min ≤ max`. No hypothesis on null pages, truncation or duplicates. -/
+theorem find_no_miss_writer (z : Int) (ix : Index) (v : Int)
+    (hlen : ix.maxs.length = ix.mins.length)
+    (hle : ∀ i a b, i < ix.n → minAt ix i = some a → maxAt ix i = some b → a ≤ b) :
+    let r := find (writerOrder z ix == 1) ix v
+    r ≤ ix.n ∧ (r < ix.n → contains ix r v = true) ∧ (∀ p, p < ix.n → contains ix p v = true → r ≤ p) := by
+  apply find_no_miss
+  intro hasc hnn
+  exact writerOrder_ascending z ix hlen (by simpa using hasc) hnn hle
+
+example : writerOrder 0 f1 = 1 ∧ find (writerOrder 0 f1 == 1) f1 8 = 2 := by decide
+
+/-- the dispatch before the repair (binary search whenever flagged ascending) misses: F1 -/
+theorem findUnguarded_misses : contains f1 2 8 = true ∧ findUnguarded true f1 8 = 3 := by decide
 
 end PqModel.Props.C06
